@@ -178,6 +178,8 @@ def explore(ctx, res, replay=None):
     for var, fg in variants:
         outs.append((('flexgen' if fg else 'committed'), ctx.run_impl(cases, var, flexgen=fg, timeout_case=4)))
     mout = ctx.run_model(cases)
+    spec_cases = [(cid, txt.replace('scan ', 'scanspec ', 1)) for cid, txt in cases] if pid == 'C14' else None
+    sout = ctx.run_model(spec_cases) if spec_cases else None
     res.rule = ('G-bytes: every string up to length %d over 24 significant bytes, token-biased random strings, byte-mutated programs; '
                 'G-incl: all include graphs over 2 files x <=2 directives and 3 files x <=1 directive, random 3- and 4-file graphs with <=2 '
                 'directives (targets: every file, an absent name, a non-name, end of file; main present/absent). Each case is scanned by the '
@@ -212,10 +214,15 @@ def explore(ctx, res, replay=None):
                 continue
             if len(ip[0]) >= 2 or ip[1]:
                 res.nontrivial.add((hash(frozenset(case['files'].items())), main))
+            if pid == 'C14' and sout is not None:
+                sp = parse_scan(sout[cid])
+                if sp is not None and ip[0] != sp[0]:
+                    res.violations.append(dict(case, what='tokens', build=vname,
+                                               detail='token stream differs from the maximal-munch tokenisation of the documented token table: impl %s / spec %s'
+                                               % (' '.join(ip[0])[:300], ' '.join(sp[0])[:300])))
             if ip[0] != mp[0] and pid == 'C14':
-                res.violations.append(dict(case, what='tokens', build=vname,
-                                           detail='token stream differs from the maximal-munch tokenisation: impl %s / spec %s'
-                                           % (' '.join(ip[0])[:300], ' '.join(mp[0])[:300])))
+                res.tie_broken.append(dict(case, what='scanner differs from the model instantiated with the rule list translated from lexer.l', build=vname,
+                                           impl=' '.join(ip[0])[:300], model=' '.join(mp[0])[:300]))
             noline = lambda es: [e.split('@')[0] + '@' + e.split('@')[1].split(':')[0] + e[e.index('['):] for e in es]
             if (noline(ip[1]) != noline(mp[1])) and pid == 'C15':
                 res.violations.append(dict(case, what='errors', build=vname,
